@@ -182,6 +182,8 @@ type FnVC struct {
 	localRefs       []Term // refs of non-escaping local allocations
 	tiDone          map[string]bool
 	roCell          map[vkey]Val // value of single-assignment captured variables
+	privInfo        map[*ssa.Alloc]*privCell
+	privRefs        map[*ssa.Alloc]Term // refs of private cells (captured variables nothing but this function's closures can reach)
 	epochPrev       map[int]epochOrigin
 	// preserveLocalsOnHavoc is set while a *call* is havocked (callees cannot touch non-escaping locals);
 	// it is off for loop-head havoc, where the loop body itself may write them.
